@@ -74,6 +74,7 @@ type frame struct {
 	lockEv   []string
 	callLog  map[string][][]Val // arguments of the calls made so far, by callee name
 	resLog   map[string][]Val   // results of those calls
+	callPos  map[string][]token.Pos // source positions of those calls (callarg/callres count call sites in source order)
 	ranges   map[*ssa.Range]*rangeInfo
 	cellOf   map[types.Object]ssa.Value // variables living in a cell (address taken / captured)
 }
